@@ -16,6 +16,9 @@ use frac::Frac;
 
 pub(crate) use shortest_path::optimize;
 
+#[cfg(datamatrix_verif)]
+pub use shortest_path::verif_hooks::{get as verif_planner_stats, Stats as VerifPlannerStats};
+
 trait ContextInformation: Clone {
     fn symbol_size_left(&self, extra_chars: usize) -> Option<usize>;
 
